@@ -305,29 +305,45 @@ def run(rep):
     if ro is None:
         rep.lost("COUNTER-CONTEXT", "COUNTER-CONTEXT/anchor", "Rule::optimise")
     else:
-        s = show(ro.body)
-        order = re.findall(r"if options\.(\w+) \{", s)
-        rep.check(order == ["coalesce", "shake", "rewrite", "matrix"], "OPT-SWITCHES", "OPT-SWITCHES/order", ro.sp, "passes run under their own switch in the order coalesce, shake, rewrite, matrix", str(order))
-        for sw, fn in (("coalesce", "optimiser::coalesce"), ("shake", "optimiser::shake"), ("rewrite", "optimiser::rewrite"), ("matrix", "optimiser::matrix")):
-            blk = [n for n in walk(ro.body) if n.get("k") == "If" and show(n["cond"]) == "options." + sw]
-            ok = len(blk) == 1 and ("self.detection.expression = %s(self.detection.expression" % fn) in show(blk[0]["then"]) and not blk[0].get("else")
-            rep.check(ok, "OPT-SWITCHES", "OPT-SWITCHES/" + sw, ro.sp, "switch `%s` applies exactly %s to the condition" % (sw, fn.split("::")[-1]), "")
-        import optsites
-        osites = optsites.sites(F) or []
-        for pas in ("shake", "rewrite", "matrix"):
-            mine = [s_ for s_ in osites if s_["pass"] == "optimiser::" + pas]
-            if not mine:
-                continue
-            c = type("Site", (), {"sp": mine[0]["sp"]})()
-            changes_count = pas in ("shake", "matrix")
-            if changes_count:
-                # identifiers are still referenced by all(X)/of(X, n) when coalesce did not run; merging their members changes the count
-                guarded = any(p.get("k") == "If" and "coalesce" in show(p["cond"]) for p in mine[0]["path"])
-                rep.check(guarded, "COUNTER-CONTEXT", "COUNTER-CONTEXT/Rule::optimise/%s-on-identifiers" % pas, c.sp,
-                          "a pass that merges or-members (%s) is not applied to identifier definitions that all()/of() may still count" % pas,
-                          "optimise maps %s over every identifier definition even when coalesce is off, so all(X)/of(X,n) count merged members" % pas)
-            else:
-                rep.ok("COUNTER-CONTEXT", "COUNTER-CONTEXT/Rule::optimise/%s-on-identifiers" % pas, c.sp, "rewrite keeps the number of members (pure congruence + leaf rewrite)")
+        import optflow
+        of = optflow.analyse(F)
+        if of["error"]:
+            rep.lost("OPT-SWITCHES", "OPT-SWITCHES/flow", "Rule::optimise inside the interpreted subset", of["error"][:200])
+        else:
+            runs = {sw: run for (sw, al), run in of["runs"].items() if not al}
+            exp = {sw: optflow.expected(sw, False) for sw in runs}
+            bad = [str(sw) for sw, run in runs.items() if run["fields"].get("detection.expression") != exp[sw]["detection.expression"]]
+            rep.check(not bad, "OPT-SWITCHES", "OPT-SWITCHES/order", ro.sp, "for each of the 16 switch sets the condition is coalesce?, then shake?, then rewrite?, then matrix? of the loaded condition (each pass under its own switch, in that order)", "; ".join(bad[:4]))
+            for i, (sw_name, fn) in enumerate((("coalesce", "optimiser::coalesce"), ("shake", "optimiser::shake"), ("rewrite", "optimiser::rewrite"), ("matrix", "optimiser::matrix"))):
+                only = tuple(j == i for j in range(4))
+                none = (False, False, False, False)
+                got = runs[only]["fields"].get("detection.expression")
+                ok = got == exp[only]["detection.expression"] and runs[none]["fields"].get("detection.expression") == ("init", "detection.expression")
+                rep.check(ok, "OPT-SWITCHES", "OPT-SWITCHES/" + sw_name, ro.sp, "switch `%s` alone applies exactly %s to the condition; no switch, no change" % (sw_name, fn.split("::")[-1]), str(got)[:100])
+            # identifier definitions: what is done to the map that all(X)/of(X, n) still read when coalesce did not inline them
+
+            def passes_over(term):
+                out_ = []
+                while isinstance(term, tuple) and term[0] in ("mapv", "cleared"):
+                    if term[0] == "mapv":
+                        out_.append(term[1])
+                        term = term[2]
+                    else:
+                        return out_, True
+                return out_, False
+            for pas in ("shake", "rewrite", "matrix"):
+                live = []  # switch sets in which `pas` rewrites identifier definitions that are still referenced (map not cleared)
+                for sw, run in runs.items():
+                    applied, cleared = passes_over(run["fields"].get("detection.identifiers"))
+                    if "optimiser::" + pas in applied and not cleared:
+                        live.append(sw)
+                site = ro.sp
+                if pas in ("shake", "matrix"):
+                    rep.check(not live, "COUNTER-CONTEXT", "COUNTER-CONTEXT/Rule::optimise/%s-on-identifiers" % pas, site,
+                              "a pass that merges or-members (%s) is not applied to identifier definitions that all()/of() may still count" % pas,
+                              "optimise maps %s over every identifier definition even when coalesce is off, so all(X)/of(X,n) count merged members (%d of 16 switch sets)" % (pas, len(live)))
+                else:
+                    rep.ok("COUNTER-CONTEXT", "COUNTER-CONTEXT/Rule::optimise/%s-on-identifiers" % pas, site, "rewrite keeps the number of members (pure congruence + leaf rewrite)")
     # ---------------------------------------------------------------- REWRITE-CONST
     rs = F.fn("optimiser::rewrite_search")
     if rs is None:
